@@ -346,6 +346,10 @@ def run(ck):
     from .c18 import ck_alias
     c04.r1_fields_restored(ck_alias(ck, "C08-R7"))
     r9_backup_is_written_afresh(ck)
+    # .pc/applied-patches lists everything applied so far only if each push *appends* its names (C09-R1: how the log is opened)
+    from . import c09 as _c09
+    from ..framework import RuleAlias as _RA
+    _c09.run(_RA(ck, lambda r: "C08-R10" if r == "C09-R1" else None))
     # the undo re-inserts the hunk's own lines; that restores the file only because a hunk is placed solely where the file's lines
     # equal them byte for byte (the comparison of the trial, C02-R4) - a backup is the rolled-back state; it equals the pre-patch file only if that holds
     from . import c02 as _c02
